@@ -3,7 +3,8 @@
 //!
 //! Two 4-base reads, one on each of two references, written with the default writer (one slice, so a
 //! multi-reference slice). D3a: `cram::fs::index` panics. D3b: `query("sq0:1-5")` through a
-//! hand-made index also returns the read of `sq1`.
+//! hand-made index also returned the read of `sq1` (both repaired since). G4-a: sequential reading after
+//! the end of the stream returns an error instead of "no more records".
 
 use std::{io::Write, num::NonZero, panic};
 
@@ -83,6 +84,15 @@ fn main() -> Result<(), Box<dyn std::error::Error>> {
             rec.name().map(|n| n.to_string()),
             rec.reference_sequence_id()
         );
+    }
+
+    // G4-a: sequential reading again after the end of the stream was reached
+    let n = r.records(&h).count();
+    println!("G4-a after the query: records() to the end yields {n} more records");
+    match r.records(&h).next() {
+        None => println!("G4-a records() again at the end of the stream: None (end of stream)"),
+        Some(Ok(_)) => println!("G4-a records() again at the end of the stream: a record"),
+        Some(Err(e)) => println!("G4-a records() again at the end of the stream: Err({e}) - the body of the EOF container is parsed as a container header"),
     }
     Ok(())
 }
